@@ -155,21 +155,33 @@ func init() {
 					st.TotalConnNum, st.PoolConnNum, hc.WantConnectionCount(), hc.PendingRequests(), dials,
 					atomic.LoadInt32(&peer.closed), strings.Join(cs, ","))
 			}
-			settle := func() string {
+			margsFor := func(mops []string) [][]byte {
+				margs := [][]byte{[]byte(fmt.Sprint(maxConns)), []byte(map[bool]string{true: "1", false: "0"}[wait])}
+				for _, m := range mops {
+					margs = append(margs, []byte(m))
+				}
+				return margs
+			}
+			// settle: wait until the observable state is the one the model predicts for the operations so far and
+			// stays so for a moment; if that never happens within 3 s, return whatever it settled to
+			settle := func(mops []string) string {
+				lines := strings.Split(t.M.Call("pool_script", margsFor(mops)...), ";")
+				want := lines[len(lines)-1]
 				last, same := "", 0
-				for i := 0; i < 2000; i++ {
+				deadline := time.Now().Add(3 * time.Second)
+				for time.Now().Before(deadline) {
 					s := snapshot()
 					if s == last {
 						same++
-						if same >= 5 {
-							return s
-						}
 					} else {
 						last, same = s, 0
 					}
+					if s == want && same >= 3 {
+						return s
+					}
 					time.Sleep(700 * time.Microsecond)
 				}
-				return last + " (unsettled)"
+				return last + " (settled; model expects: " + want + ")"
 			}
 			var mops, outs []string
 			expired := false
@@ -249,7 +261,7 @@ func init() {
 				default:
 					continue
 				}
-				outs = append(outs, settle())
+				outs = append(outs, settle(mops))
 			}
 			// let everything still in flight end so that no goroutine outlives the history
 			var fs []Finding
@@ -273,11 +285,7 @@ func init() {
 				t.Count("histories-with-a-waiter")
 			}
 			impl := strings.Join(outs, ";")
-			margs := [][]byte{[]byte(fmt.Sprint(maxConns)), []byte(map[bool]string{true: "1", false: "0"}[wait])}
-			for _, m := range mops {
-				margs = append(margs, []byte(m))
-			}
-			mod := t.M.Call("pool_script", margs...)
+			mod := t.M.Call("pool_script", margsFor(mops)...)
 			if impl != mod {
 				fs = append(fs, Finding{Kind: "corr", Unit: "c10.seq", Class: "pool_script", Impl: impl, Model: mod, Note: strings.Join(mops, " ")})
 			}
